@@ -3,6 +3,7 @@ C13 — algebra of the declarative result (`scale*`): identity at 1, composition
 predicates, reflexivity of the comparison; and the small glue lemmas for charts and map sets.
 -/
 import Reamber.Lemmas.Rate
+import Mathlib.Tactic.Linarith
 
 namespace Reamber.Rate
 
@@ -280,5 +281,33 @@ theorem closeSet_refl (s : MapSet) : closeSet 0 s s = true := by
   · cases s.offset <;> simp [closeOptRat, closeRat_refl]
   · cases s.sampleStart <;> simp [closeOptRat, closeRat_refl]
   · cases s.sampleLength <;> simp [closeOptRat, closeRat_refl]
+
+/-! ### … and at ε = 0 it means equality, column by column -/
+
+theorem closeRat_zero {a b : Rat} (h : closeRat 0 a b = true) : a = b := by
+  simp only [closeRat, zero_mul, add_zero, decide_eq_true_eq, absR] at h
+  split at h <;> linarith
+
+theorem closeCell_zero {a b : Cell} (h : closeCell 0 a b = true) : a = b := by
+  cases a <;> cases b <;> simp_all [closeCell]
+  exact closeRat_zero h
+
+theorem closeCells_zero : ∀ {l l' : List Cell}, closeCells 0 l l' = true → l = l'
+  | [], [], _ => rfl
+  | a :: as, b :: bs, h => by
+    simp only [closeCells, Bool.and_eq_true] at h
+    rw [closeCell_zero h.1, closeCells_zero h.2]
+  | [], _ :: _, h => by simp [closeCells] at h
+  | _ :: _, [], h => by simp [closeCells] at h
+
+/-- what the Boolean specification says at ε = 0: the two frames have the same columns (as sets) and the same
+number of rows, and every column holds the same cells in the same row order -/
+theorem closeFrame_zero {want got : Frame} (h : closeFrame 0 want got = true) :
+    (∀ c, c ∈ want.cols ↔ c ∈ got.cols) ∧ want.rows.length = got.rows.length ∧
+    ∀ c ∈ want.cols, want.col c = got.col c := by
+  simp only [closeFrame, Bool.and_eq_true, List.all_eq_true, List.contains_eq_mem, decide_eq_true_eq,
+    beq_iff_eq] at h
+  obtain ⟨⟨⟨h1, h2⟩, h3⟩, h4⟩ := h
+  exact ⟨fun c => ⟨h1 c, h2 c⟩, h3, fun c hc => closeCells_zero (h4 c hc)⟩
 
 end Reamber.Rate
